@@ -33,7 +33,7 @@ use crate::fontgen::cff::{
 };
 use crate::fontgen::sfnt::find_table;
 use crate::fontgen::type2::{
-    self as t2, apply_blends, diff_commands, factor, gen_frag_chunks, gen_glyph_plan, op, serialize, subr_bias, Cmd, Dec,
+    self as t2, apply_blends, count_calls, diff_commands, factor, gen_frag_chunks, gen_glyph_plan, op, serialize, subr_bias, Cmd, Dec,
     EncOpts, EncStats, Encoder, FactorOpts, Frag, Grid, NumForm, PathModel, PathOpts, Seg, SubrLayout, Tok, ONE,
 };
 use crate::fontgen::var::{fvar_table, AxisModel};
@@ -1118,11 +1118,14 @@ pub struct SeacCase {
     /// 0: ISOAdobe predefined charset (glyph id = SID), 1: format 0, 2: format 1
     pub charset: u8,
     pub free_forms: bool,
+    /// number of subroutine cuts per component charstring (0: the components call no subroutine);
+    /// base and accent share one global and one local Subr INDEX
+    pub subr_cuts: u8,
 }
 
 fn seac_strategy() -> impl Strategy<Value = SeacCase> {
-    (any::<u64>(), any::<bool>(), any::<bool>(), any::<bool>(), 0u8..3, any::<bool>()).prop_map(
-        |(seed, hints, component_width, seac_width, charset, free_forms)| SeacCase { seed, hints, component_width, seac_width, charset, free_forms },
+    (any::<u64>(), any::<bool>(), any::<bool>(), any::<bool>(), 0u8..3, any::<bool>(), prop_oneof![2 => Just(0u8), 3 => 1u8..4]).prop_map(
+        |(seed, hints, component_width, seac_width, charset, free_forms, subr_cuts)| SeacCase { seed, hints, component_width, seac_width, charset, free_forms, subr_cuts },
     )
 }
 
@@ -1150,7 +1153,10 @@ pub fn check_seac(c: &SeacCase, rec: &mut Rec) -> CaseResult {
     let (bsid, asid) = (standard_encoding_sid(bcode), standard_encoding_sid(acode));
     let grid = Grid::SMALL;
     let po = PathOpts { grid, max_contours: 2, max_segs: 6, scale: 300, long_runs: false };
-    let comp = |dec: &mut Dec| -> (Vec<u8>, PathModel, EncStats) {
+    // subroutines the components are factored into (shared by base and accent)
+    let mut gsub: Vec<Vec<Tok>> = Vec::new();
+    let mut lsub: Vec<Vec<Tok>> = Vec::new();
+    let mut comp = |dec: &mut Dec| -> (Vec<Tok>, PathModel, EncStats) {
         let plan = gen_glyph_plan(dec, &po, &[], &|_| false);
         let eo = EncOpts {
             cff2: false,
@@ -1165,10 +1171,47 @@ pub fn check_seac(c: &SeacCase, rec: &mut Rec) -> CaseResult {
         };
         let mut e = Encoder::new(&eo);
         e.glyph(dec, &plan, &[]);
-        (serialize(&e.toks, &|_, _| 0), plan.model(&[]), e.stats)
+        let toks = if c.subr_cuts > 0 {
+            // ids are allocated behind the subroutines that exist already; a new body only calls bodies
+            // created during this very call, whose depth `factor` tracks by itself
+            let (bg, bl) = (gsub.len(), lsub.len());
+            let mut new_bodies: Vec<(bool, Vec<Tok>)> = Vec::new();
+            let (mut ng, mut nl) = (0usize, 0usize);
+            let call_depth = |_: bool, _: usize| -> u32 { 0 };
+            let fo = FactorOpts { cff2: false, regions: 0, max_depth: 8, call_depth: &call_depth, deep: false };
+            let mut new_subr = |body: Vec<Tok>, _d: u32, dd: &mut Dec| -> (bool, usize) {
+                let global = dd.chance(1, 2);
+                let id = if global {
+                    ng += 1;
+                    bg + ng - 1
+                } else {
+                    nl += 1;
+                    bl + nl - 1
+                };
+                new_bodies.push((global, body));
+                (global, id)
+            };
+            let (toks, _) = factor(dec, e.toks.clone(), &fo, &mut new_subr, c.subr_cuts as usize);
+            for (global, body) in new_bodies {
+                if global {
+                    gsub.push(body);
+                } else {
+                    lsub.push(body);
+                }
+            }
+            toks
+        } else {
+            e.toks.clone()
+        };
+        (toks, plan.model(&[]), e.stats)
     };
-    let (bcs, bmodel, bstats) = comp(&mut dec);
-    let (acs, amodel, astats) = comp(&mut dec);
+    let (btoks, bmodel, bstats) = comp(&mut dec);
+    let (atoks, amodel, astats) = comp(&mut dec);
+    let (gl_l, lo_l) = (SubrLayout::identity(gsub.len()), SubrLayout::identity(lsub.len()));
+    let ser = |toks: &[Tok]| -> Vec<u8> { serialize(toks, &|global, id| if global { gl_l.number(id) } else { lo_l.number(id) }) };
+    let (bcs, acs) = (ser(&btoks), ser(&atoks));
+    let accent_calls = count_calls(&atoks);
+    let base_calls = count_calls(&btoks);
     let adx = dec.range(-500, 500);
     let ady = dec.range(-500, 500);
     let mut toks = Vec::new();
@@ -1194,7 +1237,17 @@ pub fn check_seac(c: &SeacCase, rec: &mut Rec) -> CaseResult {
     };
     let mut m = CffModel::simple(charstrings);
     m.charset = charset;
-    m.kind = CffKind::NameKeyed { private: PrivateModel { nominal_width_x: Some(500), default_width_x: Some(400), ..Default::default() } };
+    let filler = vec![op::RETURN as u8];
+    m.global_subrs = gl_l.entries(&gsub.iter().map(|t| ser(t)).collect::<Vec<_>>(), &filler);
+    let local_entries = lo_l.entries(&lsub.iter().map(|t| ser(t)).collect::<Vec<_>>(), &filler);
+    m.kind = CffKind::NameKeyed {
+        private: PrivateModel {
+            nominal_width_x: Some(500),
+            default_width_x: Some(400),
+            subrs: if local_entries.is_empty() { None } else { Some(local_entries) },
+            ..Default::default()
+        },
+    };
     let table = build_cff(&m);
     rec.artefact("table", &table);
     rec.hash_bytes(&table);
@@ -1213,6 +1266,8 @@ pub fn check_seac(c: &SeacCase, rec: &mut Rec) -> CaseResult {
     rec.class("seac");
     rec.class_if(c.component_width, "seac:components-with-width");
     rec.class_if(c.seac_width, "seac:width");
+    rec.class_if(accent_calls > 0, "seac:accent-calls-subroutine");
+    rec.class_if(base_calls > 0, "seac:base-calls-subroutine");
     rec.class_if(bstats.masks > 0 && astats.masks > 0, "seac:both-components-masked");
     rec.class_if(bstats.stems > 0 && astats.masks > 0, "seac:accent-masked-after-hinted-base");
     rec.class_if(c.charset == 0 && (bcode > 228 || acode > 228), "seac:isoadobe-code>228");
